@@ -249,36 +249,18 @@ func monitorC32(r *bulkRun) []string {
 		got[i] = entrySx(e)
 	}
 	// completion-order truth: entry j is the result of element order[j]
-	strip := func(e string) string { // without the responseType (it is positional: part of the attribution, checked below)
-		if !c.Parallel {
-			return e
-		}
-		if k := strings.LastIndex(e, " "); k > 0 {
-			return e[:k]
-		}
-		return e
-	}
-	for j, i := range order {
-		if strip(got[j]) != strip(standalone[i]) {
+	// entry i must be what element i answers on its own (in the state the bulk had reached when it ran)
+	for i := range c.Ops {
+		if got[i] != standalone[i] {
 			tag := "[standalone-mismatch]"
-			if strings.HasPrefix(standalone[i], "(err cancelled") != strings.HasPrefix(got[j], "(err cancelled") {
+			switch {
+			case strings.HasPrefix(standalone[i], "(err cancelled") != strings.HasPrefix(got[i], "(err cancelled"):
 				tag = "[order-or-stop]"
+			case sameMultiset(got, standalone):
+				tag = "[attribution]" // every result is there, attached to the wrong element
 			}
-			msgs = append(msgs, fmt.Sprintf("result %d (element %d): bulk answered %s, the same request on its own answers %s %s", j, i, got[j], standalone[i], tag))
+			msgs = append(msgs, fmt.Sprintf("response entry %d does not describe element %d: entry %s, the same request on its own answers %s (execution order %v) %s", i, i, got[i], standalone[i], order, tag))
 			break
-		}
-	}
-	// attribution: entry i must describe element i
-	if len(msgs) == 0 {
-		for i := range c.Ops {
-			if got[i] != standalone[i] {
-				tag := "[attribution]"
-				if c.Parallel {
-					tag = "[parallel-attribution]"
-				}
-				msgs = append(msgs, fmt.Sprintf("response entry %d does not describe element %d: entry %s, element's own result %s (completion order %v) %s", i, i, got[i], standalone[i], order, tag))
-				break
-			}
 		}
 	}
 	// state
@@ -294,6 +276,29 @@ func monitorC32(r *bulkRun) []string {
 		msgs = append(msgs, fmt.Sprintf("HTTP status %d with failed=%v [status]", r.Status, failed))
 	}
 	return msgs
+}
+
+// same results up to order and up to the positional responseType
+func sameMultiset(a, b []string) bool {
+	core := func(e string) string {
+		if k := strings.LastIndex(e, " "); k > 0 {
+			return e[:k]
+		}
+		return e
+	}
+	cnt := map[string]int{}
+	for _, x := range a {
+		cnt[core(x)]++
+	}
+	for _, x := range b {
+		cnt[core(x)]--
+	}
+	for _, v := range cnt {
+		if v != 0 {
+			return false
+		}
+	}
+	return len(a) == len(b)
 }
 
 func genBulkCase(r *Rng) bulkCase {
